@@ -275,3 +275,16 @@ Definition implicify (g : mol) : pyres mol :=
   end.
 
 Definition implicify_case (g : mol) (expected : pyres mol) : bool := pyres_eqb mol_core_eqb (implicify g) expected.
+
+(* intermediate states of implicify_hydrogens read from the running function: the dictionary `explicit` after the first loop
+   (insertion order), the set `to_remove` and the dictionary `fixed` after the second *)
+Definition implicify_trace_case (g : mol) (ex : list (Z * list Z)) (rem : list Z) (fixed : list (Z * Z)) : bool :=
+  match collect_explicit g (m_atoms g) [] with
+  | Ok ex' =>
+      list_eqb (pair_eqb Z.eqb (list_eqb Z.eqb)) ex' ex &&
+      match decide_all g ex' [] [] with
+      | Ok (rem', fixed') => same_keys_z rem' rem && list_eqb (pair_eqb Z.eqb Z.eqb) fixed' fixed
+      | Err _ => false
+      end
+  | Err _ => false
+  end.
